@@ -250,7 +250,11 @@ def probe_portfolio(spec):
                     portf2.setup_optim_problem(mk_prices(spec), mk_grid(g0))
                 except Exception as e:
                     o['split_warmup_error'] = repr(e)[:200]
-            ops = portf2.setup_split_optim_problem(mk_prices(spec), tg2, interval_size=opts['split'], **skw)
+            pr_split = mk_prices(spec)
+            if opts.get('price_frame_offgrid'):
+                import build as _b
+                pr_split = _b.mk_price_frame(spec)        # the time series itself is handed to the split set-up
+            ops = portf2.setup_split_optim_problem(pr_split, tg2, interval_size=opts['split'], **skw)
         except Exception as e:
             o['split'] = {'setup_error': repr(e)[:300]}
             return o
